@@ -6,21 +6,21 @@ props = {json.loads(l)["id"]: json.loads(l) for l in open(os.path.join(HERE, "pr
 TECH = {
  "C01": "runtime monitor: API-wrapper oracle vs label-keyed exact reference (tagged values, dyadics, reals, NaN taint) on exhaustive operand-pair enumeration",
  "C02": "runtime monitor: exact rational reference balance per process vs observed raise/warn outcome on generated systems with single-entry perturbations",
- "C03": "runtime monitor: conservation oracle on every compute() plus perturbation probes of check_stock_balance",
+ "C03": "runtime monitor: conservation oracle on every compute() plus perturbation probes of check_stock_balance; bystander ring re-checks earlier stocks while other objects are used",
  "C04": "relational runtime monitor: permutation shadow runs of the real code in every storage order",
  "C05": "runtime monitor: API-wrapper oracle on every assignment vs evolving label-keyed model; failure atomicity; copy probe",
  "C06": "runtime monitor: API-wrapper oracle with independent key-form model on exhaustive selector-kind assignments",
  "C07": "runtime monitor: API-wrapper oracle vs label-keyed marginals/broadcasts on exhaustive kept/summed/cast enumerations",
- "C08": "runtime monitor: invariants + closed-form reference survival tables on every sf/pdf read",
- "C09": "runtime monitor: cohort-table conservation oracle after every DSM compute()",
- "C10": "relational runtime monitor: inverse-model and other-solver shadow runs with condition-scaled tolerance",
+ "C08": "runtime monitor: invariants + closed-form reference survival tables on every sf/pdf read; bystander ring re-checks earlier tables while other models are used",
+ "C09": "runtime monitor: cohort-table conservation oracle after every DSM compute(); bystander ring re-checks earlier stocks",
+ "C10": "relational runtime monitor: inverse-model and other-solver shadow runs with condition-scaled tolerance; bystander ring on earlier stocks",
  "C11": "runtime monitor: reference frame reader / unique cell values on to_df and from_df across layouts and permutations",
  "C12": "runtime monitor with fault injection: fault-aware accept/reject oracle over injected data faults x flag combinations",
  "C13": "global invariant monitor on every wrapper exit + pool scan over random programs with ill-formed steps",
  "C14": "runtime monitor: lock-step ordered-list model + independence probes on every DimensionSet call",
  "C15": "global input-snapshot monitor + write-through/shares-memory probes on results",
- "C16": "relational runtime monitor: truncation, superposition, label-slice, shift and impulse shadow runs",
- "C17": "history monitor: fresh-twin shadow after every compute() in re-parameterisation histories",
+ "C16": "relational runtime monitor: truncation, superposition, label-slice, shift and impulse shadow runs; bystander ring on earlier stocks",
+ "C17": "history monitor: fresh-twin shadow after every compute() in re-parameterisation histories incl. refused steps; bystander ring on earlier stocks and tables",
  "C18": "runtime monitor: attribute-by-attribute comparison of built systems/files against generated definitions",
  "C19": "runtime monitor: export content vs system snapshot, re-import, audit-hook file events",
  "C20": "runtime monitor: figure data (links / traces / lines) vs label-keyed reference",
